@@ -166,15 +166,106 @@ def serialization_law(rep: common.Report) -> int:
     return n
 
 
+TAGGED_CFG = """CONSTANTS Deviations = %s
+SPECIFICATION Spec
+INVARIANT ExactlyOneTag
+INVARIANT NoEscape
+INVARIANT RoundTripT
+"""
+
+
+def tagged_union_model(rep: common.Report) -> int:
+    """spec/Tagged.tla: 'a TaggedUnion accepts exactly one tag'.  TLC checks the code-shaped path against the rule,
+    the deviation of the pinned tree (the constructor's ValueError) must violate NoEscape, and every case is replayed on
+    a real TaggedUnion class: outcome, value (tag + image), error locations / rules, serialization, round trip."""
+    from harness import bridge, compare, replay_deser, tlc
+
+    from apischema import ValidationError, deserialize, serialize
+    from apischema.tagged_unions import Tagged, TaggedUnion, get_tagged
+
+    neg = tlc.run_tlc("MC_Tagged", TAGGED_CFG % '{"ctorvalueerror"}', workers=4, env={"EMIT": "0"}, timeout_s=600)
+    rep.set("tagged_negative_checks", {"ctorvalueerror": neg.violated})
+    if neg.violated != "NoEscape":
+        rep.violation("negative check: the deviation ctorvalueerror does not violate NoEscape (vacuous law)", {})
+    res = tlc.run_tlc("MC_Tagged", TAGGED_CFG % "{}", workers=4, env={"EMIT": "1"}, timeout_s=600)
+    if res.violated:
+        rep.violation(f"TLC: {res.violated} violated by the TaggedUnion model", {"tlc": res.error_trace[:40]})
+        return 0
+    header, cases = replay_deser.parse_emitted(res.prints)
+    u = replay_deser.Universe(header, [t[1] for c in cases for t in c["tags"]])
+    built = {}
+    n = 0
+    for c in cases:
+        key = json.dumps(c["tags"], sort_keys=True)
+        if key not in built:
+            ns = {"__annotations__": {name: Tagged[u.type(T)] for name, T in c["tags"]}, "__module__": __name__}
+            for name, _ in c["tags"]:
+                ns[name] = Tagged()
+            built[key] = type(f"TU{len(built)}", (TaggedUnion,), ns)
+        TU = built[key]
+        data = bridge.dec_data(c["data"])
+        label = f"TaggedUnion{[(n_, bridge.type_expr(T)) for n_, T in c['tags']]} <- {json.dumps(data)} (additional_properties={c['addl']})"
+        n += 1
+        try:
+            got = deserialize(TU, data, additional_properties=c["addl"])
+            out = {"kind": "ok", "tagged": get_tagged(got)}
+        except ValidationError as err:
+            out = {"kind": "verr", "errs": bridge.enc_errors(err.errors), "order_ok": bridge.errors_order_ok(err.errors)}
+        except Exception as exc:
+            out = {"kind": "exc", "exc": f"{type(exc).__name__}: {exc}"}
+        exp = c["expect"]
+        if out["kind"] == "exc":
+            if c["devkind"] == "exc" and out["exc"].startswith("ValueError: TaggedUnion constructor expects only one field"):
+                rep.violation(f"[escape] {label}: {out['exc']}", {"case": c, "actual": out}, finding_key="F-taggedunion-ctor")
+            else:
+                rep.violation(f"[escape] {label}: {out['exc']}", {"case": c, "actual": out})
+            continue
+        if exp.get("ok") and exp["v"].get("k") == "unspecified":
+            continue
+        if c["kind"] == "ok":
+            if out["kind"] != "ok":
+                rep.violation(f"[rejected-conforming] {label}: {out['errs']}", {"case": c, "actual": out})
+                continue
+            tag, val = out["tagged"]
+            try:
+                same = tag == exp["v"]["tag"] and bridge.values_equal(exp["v"]["v"], u.ctx.enc_value(val))
+            except bridge.Unencodable:
+                same = False
+            if not same:
+                rep.violation(f"[image] {label}: got {tag}={val!r}, expected {json.dumps(exp['v'])[:200]}", {"case": c})
+                continue
+            ser = serialize(TU, got)
+            from harness import engine_ser
+            try:
+                ok = engine_ser.ser_equal(c["ser"], bridge.enc_data(ser))
+            except bridge.Unencodable:
+                ok = False
+            if not ok:
+                rep.violation(f"[serialize] {label}: serialize gives {ser!r}, expected {json.dumps(c['ser'])[:200]}", {"case": c})
+            elif get_tagged(deserialize(TU, ser, additional_properties=c["addl"]))[0] != tag:
+                rep.violation(f"[roundtrip] {label}: {ser!r} does not come back under tag {tag}", {"case": c})
+        else:
+            if out["kind"] == "ok":
+                rep.violation(f"[accepted-nonconforming] {label}: accepted as {out['tagged']!r}", {"case": c})
+                continue
+            vd = compare.deser_verdict(exp, {"kind": "verr", "v": {"k": "null"}, "errs": out["errs"], "order_ok": out["order_ok"], "exc": ""},
+                                       False, dups_ok=True)
+            if vd != "ok":
+                rep.violation(f"[{vd}] {label}: errors {out['errs']}, the model expects {exp['e']} (allowed: {exp['x']})", {"case": c, "actual": out})
+    return n
+
+
 def main() -> int:
     rep = common.Report("C13", "model_checking")
     rep.assumptions = ["reference semantics = spec/DataModel.tla (first accepting alternative; documented coercion table)",
                        "string -> number parsing and boolean words are Python's own, carried as string attributes",
+                       "TaggedUnion: spec/Tagged.tla (rule vs the code-shaped path), replayed on real TaggedUnion classes",
                        "class-level inherited discriminators are outside the universe's encoding: for unions mixing such a "
                        "hierarchy with foreign alternatives the try-each law is checked on the real code directly"]
     engine_deser.run("C13", rep, tiers_quick=("u", "d1"), tiers_thorough=("u", "d1", "d2"), only_unions=True, negative={"nofloatfallback": "DispatchEqSequential"})
     rep.set("hierarchy_law_cases", hierarchy_law(rep))
     rep.set("serialization_law_cases", serialization_law(rep))
+    rep.set("tagged_union_cases", tagged_union_model(rep))
     return rep.finish()
 
 
